@@ -294,8 +294,19 @@ func runCheck(repo, root, prop, tier string, seed int) *CheckResult {
 			have[o.Func+"/"+o.Label[:i]] = true
 		}
 	}
+	hasLabel := func(r string) bool {
+		if have[r] {
+			return true
+		}
+		for l := range have {
+			if strings.HasSuffix(l, " "+r) || strings.Contains(l, " "+r+" ") || strings.HasPrefix(l, r+" ") {
+				return true
+			}
+		}
+		return false
+	}
 	for _, r := range meta.Required {
-		if !have[r] {
+		if !hasLabel(r) {
 			obls = append(obls, &Obligation{Name: "contract-target-missing/" + r, Kind: "target", Props: []string{prop},
 				Src: "required obligation label yields no obligation", Result: &SolverResult{Status: "missing"}})
 		}
